@@ -68,6 +68,24 @@ def scenarios(rng, quick):
             out.append(explore.Scenario("map-in-map-omc%d-imc%d" % (omc, imc), m,
                                         {"items": [{"xs": [1, 2]}, {"xs": [3]}, {"xs": []}, {"xs": [4, 5]}]},
                                         {"g": [("ok",)]}, {"g": 10}))
+    # iterations that fail, are caught inside the iteration and carry on in a slow recovery state while their
+    # batch mates finish (the caught slot is still outstanding: the next batch must wait for it)
+    for n, mc, bad in ((4, 2, [100]), (4, 2, [101]), (3, 1, [100]), (5, 2, [100, 103]), (4, 3, [102]), (4, 0, [101])):
+        if quick and n == 5:
+            continue
+        items = list(range(100, 100 + n))
+        rule = [{"Variable": "$", "NumericEquals": b, "Next": "TF"} for b in bad]
+        it = {"StartAt": "C", "States": {
+            "C": {"Type": "Choice", "Choices": rule, "Default": "T"},
+            "TF": task("gfail", Catch=[{"ErrorEquals": ["E"], "Next": "R"}]),
+            "T": task("g"),
+            "R": task("fr")}}
+        m = {"StartAt": "M", "States": {"M": {"Type": "Map", "ItemsPath": "$.items", "MaxConcurrency": mc, "ItemProcessor": it,
+                                              "Next": "After"}, "After": {"Type": "Pass", "End": True}}}
+        out.append(explore.Scenario("map-caught-n%d-mc%d-bad%s" % (n, mc, "_".join(str(b - 100) for b in bad)), m, {"items": items},
+                                    {"g": [("ok",)], "gfail": [("err", "E", "m")], "fr": [("ok",)]},
+                                    {"g": 10, "gfail": 5, "fr": 60},
+                                    extra={"iter": {"map": "M", "ends": ["T", "TF", "R"], "n": n, "mc": mc, "after": "After"}}))
     m = {"StartAt": "M", "States": {"M": {"Type": "Map", "ItemsPath": "$.items", "End": True,
                                           "Iterator": {"StartAt": "IP", "States": {"IP": {"Type": "Parallel", "End": True, "Branches": [
                                               {"StartAt": "A", "States": {"A": task("f0")}},
@@ -80,15 +98,41 @@ def scenarios(rng, quick):
 class Monitor(object):
     """in-flight counter per function from the broker's frame log"""
 
-    def __init__(self):
+    def __init__(self, scn=None):
         self.pos = 0
         self.outstanding = {}
         self.max_out = {}
         self.corr_fn = {}
         self.req_order = {}
         self.rep_order = {}
+        # iterations in flight by the history: MapIterationStarted so far minus iterations whose last state has exited
+        self.hpos = 0
+        self.iter_started = {}
+        self.iter_done = 0
+        self.iter_max = 0
+        self.entered = {}
+        self.ends = ((scn.extra.get("iter") or {}).get("ends") if scn is not None else None)
+
+    def history_step(self, s, ea):
+        hist = s.history(ea) or []
+        while self.hpos < len(hist):
+            e = hist[self.hpos]
+            self.hpos += 1
+            d = {}
+            for k, v in e.items():
+                if k.endswith("EventDetails") and isinstance(v, dict):
+                    d = v
+            if e["type"] == "MapIterationStarted":
+                self.iter_started[d.get("index")] = self.iter_started.get(d.get("index"), 0) + 1
+            elif e["type"].endswith("StateExited") and self.ends and d.get("name") in self.ends:
+                self.iter_done += 1
+            elif e["type"].endswith("StateEntered"):
+                self.entered[d.get("name")] = self.entered.get(d.get("name"), 0) + 1
+            self.iter_max = max(self.iter_max, sum(self.iter_started.values()) - self.iter_done)
 
     def __call__(self, s, ea, step):
+        if self.ends is not None:
+            self.history_step(s, ea)
         log = s.broker.log
         while self.pos < len(log):
             fr = log[self.pos]
@@ -121,6 +165,22 @@ def check_run(chk, scn, s, ea, pl, mon, ref, kind):
                    law="join order independence: every schedule yields the result of the reference semantics "
                        "(branch / item i at position i); the successor runs only after every branch finished")
         return False
+    it = scn.extra.get("iter")
+    if it:
+        mon.history_step(s, ea)
+        started = [mon.iter_started.get(i, 0) for i in range(it["n"])]
+        if started != [1] * it["n"] or set(mon.iter_started) - set(range(it["n"])):
+            chk.report("impl-violates-law", case, impl={"MapIterationStarted_per_index": mon.iter_started}, model={"each": 1},
+                       law="each Map item is processed exactly once")
+            return False
+        if it["mc"] > 0 and mon.iter_max > it["mc"]:
+            chk.report("impl-violates-law", case, impl={"max_iterations_in_flight": mon.iter_max}, model={"MaxConcurrency": it["mc"]},
+                       law="never more than MaxConcurrency iterations in flight")
+            return False
+        if mon.entered.get(it["after"], 0) != 1:
+            chk.report("impl-violates-law", case, impl={"entered": mon.entered}, model={it["after"]: 1},
+                       law="the state after the join starts once, after every iteration has finished")
+            return False
     info = scn.extra.get("map")
     if info:
         _, fn, items, mc = info
@@ -171,14 +231,14 @@ def run(chk):
         runs = []
         small = scn.name.startswith("par2") or scn.name.startswith("par3") or (scn.extra.get("map") and len(scn.extra["map"][2]) <= 3)
         if small:
-            for (s, ea, pl, choices, widths, mon, info) in explore.all_schedules(scn, max_runs, Monitor):
+            for (s, ea, pl, choices, widths, mon, info) in explore.all_schedules(scn, max_runs, lambda: Monitor(scn)):
                 runs.append((s, ea, pl, mon, "exhaustive"))
             if info["exhausted"]:
                 exhausted += 1
                 chk.dist("scenario.exhaustive_complete")
             else:
                 chk.dist("scenario.exhaustive_capped")
-        for (s, ea, pl, choices, widths, mon) in explore.random_schedules(scn, chk.rng, n_rand, Monitor):
+        for (s, ea, pl, choices, widths, mon) in explore.random_schedules(scn, chk.rng, n_rand, lambda: Monitor(scn)):
             runs.append((s, ea, pl, mon, "random"))
         for (s, ea, pl, mon, kind) in runs:
             key = cj([scn.name, [list(x) for x in s.trace]])
